@@ -45,6 +45,14 @@ Proof.
   repeat split; try lia; try reflexivity; try exact Er.
 Qed.
 
+Lemma bytes_ok_concat (ps : list (list Z)) p :
+  bytes_ok (List.concat ps) = true -> In p ps -> bytes_ok p = true.
+Proof.
+  unfold bytes_ok. induction ps as [|q t IH]; intros H Hin; [destruct Hin|].
+  cbn [List.concat] in H. rewrite forallb_app in H. apply andb_true_iff in H as [H1 H2].
+  destruct Hin as [->|Hin]; [exact H1|apply IH; assumption].
+Qed.
+
 Section Conform.
 Variables enc enc_stream : list Z -> list Z.
 Variables dec_all dec_stream : list Z -> option (list Z).
@@ -186,17 +194,17 @@ Qed.
 
 (* ---- the writer's files conform to the published format *)
 Variable hashok : list Z -> bool.
-Hypothesis enc_bytes : forall x, bytes_ok (enc x) = true.
+Hypothesis enc_bytes : forall x, bytes_ok x = true -> bytes_ok (enc x) = true.
 
 Theorem writer_conforms c data ends size ret file :
-  0 < c < two32 -> in_i64 size ->
+  0 < c < two32 -> in_i64 size -> bytes_ok data = true ->
   write_and_close enc hashok c Zstandard data ends size = Ok (ret, file) ->
   zlen file <= maxAlloc -> 8 * (cdiv size c + 1) + 29 < two32 ->
   conformant dec_all file data /\ ret = zlen file /\ size = zlen data /\ hashok data = true.
 Proof using dec_enc stream_frame stream_nil enc_bytes.
    try clear enc_stream; idtac.
  
-  intros Hc Hi H Ha Hn.
+  intros Hc Hi Hb H Ha Hn.
   destruct (writer_layout enc dec_all dec_stream hashok dec_enc stream_frame stream_nil
               c data ends size ret file Hc Hi H Ha Hn)
     as (h & frames & ps & LAY & Hcat & Hsz & _ & _ & Hret & Hh & _ & Hfr & Hfile).
@@ -204,7 +212,8 @@ Proof using dec_enc stream_frame stream_nil enc_bytes.
   rewrite <- Hcat. eapply layout_conformant; [exact LAY|].
   rewrite Hfile. apply in_range_app; [apply in_range_encode_header|].
   apply in_range_concat. rewrite Hfr. apply Forall_forall. intros x Hx.
-  apply in_map_iff in Hx as (p & <- & _). apply bytes_ok_in_range, enc_bytes.
+  apply in_map_iff in Hx as (p & <- & Hp). apply bytes_ok_in_range, enc_bytes.
+  rewrite <- Hcat in Hb. eapply bytes_ok_concat; eassumption.
 Qed.
 
 End Conform.
